@@ -178,7 +178,7 @@ def load_known():
         return json.load(f)
 
 
-def finish(pid, tier, level, rules_run, obligations, t0, explanation, assumptions, extra_cov=None, notes=None):
+def finish(pid, tier, level, rules_run, obligations, t0, explanation, assumptions, extra_cov=None, notes=None, extra_broken=None):
     """Print the report, compare with known findings, write evidence, exit by contract."""
     known = [k for k in load_known().get("known", []) if k["property"] == pid]
     known_keys = {(k["rule"], k["key"]): k for k in known}
@@ -198,7 +198,7 @@ def finish(pid, tier, level, rules_run, obligations, t0, explanation, assumption
     for o in info[:40]:
         print("  info: [%s] %s  %s: %s" % (o["rule"], o["site"], o["fn"], o["detail"]))
 
-    broken = []
+    broken = list(extra_broken or [])
     for r in rules_run:
         if r["instances"] < r["min"]:
             broken.append("rule %s matched %d instances, frozen minimum %d (anchor vanished or rule went vacuous)" % (r["rule"], r["instances"], r["min"]))
